@@ -1,1 +1,160 @@
 // Kani contract harnesses for /repo/arrow-array/src/array/boolean_array.rs (child module: sees private items via super::)
+use super::*;
+#[path = "/verif/kani/support/spec.rs"]
+mod spec;
+use spec::*;
+use arrow_buffer::Buffer;
+
+/// number of cleared bits among bits [off, off+len) of a little-endian bitmap (naive loop)
+fn zeros(bm: &[u8], off: usize, len: usize) -> usize {
+    let mut n = 0;
+    let mut i = 0;
+    while i < len {
+        if !bit(bm, off + i) { n += 1; }
+        i += 1;
+    }
+    n
+}
+/// number of set bits among bits [off, off+len)
+fn ones(bm: &[u8], off: usize, len: usize) -> usize { len - zeros(bm, off, len) }
+
+// Contract (C09, C01): BooleanArray::new(values, nulls) with values = an arbitrary bit window
+// [3, 3+vlen) and validity = an arbitrary bit window [6, 6+nlen) (symbolic lengths <= 8)
+// of two independent 2-byte allocations. `new` panics (may-reject) on a length mismatch; whenever it
+// returns, nlen == vlen (acceptance => validity length matches) and the array reads back the model:
+// len, value(i), is_null(i), null_count, true_count (valid true rows), false_count (valid false rows).
+// The converse direction (matching lengths are never rejected) is unit bool_new_accepts.
+// @unit name=bool_new_sound props=C09,C01 kind=bounded bound=value_and_validity_windows<=8_bits_bit_offsets=(3,6) mayreject=1 fns=BooleanArray::new,BooleanArray::value,BooleanArray::true_count,BooleanArray::false_count
+#[kani::proof]
+#[kani::unwind(10)]
+#[kani::stub(alloc::fmt::format, stub_format)]
+fn bool_new_sound() {
+    let vb: [u8; 2] = kani::any();
+    let bm: [u8; 2] = kani::any();
+    let (vlen, nlen): (usize, usize) = kani::any();
+    let (voff, boff): (usize, usize) = (3, 6);
+    kani::assume(vlen <= 8 && nlen <= 8);
+    let values = BooleanBuffer::new(Buffer::from_slice_ref(&vb), voff, vlen);
+    let nulls = NullBuffer::new(BooleanBuffer::new(Buffer::from_slice_ref(&bm), boff, nlen));
+    let a = BooleanArray::new(values, Some(nulls));
+    // reached only if `new` accepted
+    assert!(nlen == vlen);
+    assert!(a.len() == vlen);
+    assert!(a.null_count() == zeros(&bm, boff, vlen));
+    let i: usize = kani::any();
+    if i < vlen {
+        assert!(a.value(i) == bit(&vb, voff + i));
+        assert!(a.is_null(i) == !bit(&bm, boff + i));
+        assert!(a.is_valid(i) == bit(&bm, boff + i));
+    }
+    kani::cover!(vlen == 8 && a.null_count() == 3);
+    kani::cover!(vlen == 0);
+    std::mem::forget(a);
+}
+
+// Contract (C09, no over-rejection; C01/C02 read-back): with matching lengths (or no validity bitmap)
+// BooleanArray::new never panics, and the result reads back the model including the derived counts
+// true_count = #(valid /\ true), false_count = #(valid /\ false), null_count = #(invalid).
+macro_rules! bool_new_accepts {
+    ($name:ident, $n:expr) => {
+        #[kani::proof]
+        #[kani::unwind(12)]
+        #[kani::stub(alloc::fmt::format, stub_format)]
+        fn $name() {
+            const N: usize = $n;
+            let vb: [u8; 2] = kani::any();
+            let bm: [u8; 2] = kani::any();
+            let (voff, boff): (usize, usize) = (3, 6);
+            let with_nulls: bool = kani::any();
+            let values = BooleanBuffer::new(Buffer::from_slice_ref(&vb), voff, N);
+            let nulls = if with_nulls {
+                Some(NullBuffer::new(BooleanBuffer::new(Buffer::from_slice_ref(&bm), boff, N)))
+            } else {
+                None
+            };
+            let a = BooleanArray::new(values, nulls);
+            assert!(a.len() == N);
+            let mut t = 0;
+            let mut f = 0;
+            let mut z = 0;
+            let mut i = 0;
+            while i < N {
+                let valid = !with_nulls || bit(&bm, boff + i);
+                let v = bit(&vb, voff + i);
+                assert!(a.value(i) == v);
+                assert!(a.is_null(i) == !valid);
+                if !valid { z += 1 } else if v { t += 1 } else { f += 1 }
+                i += 1;
+            }
+            assert!(a.null_count() == z);
+            assert!(a.true_count() == t);
+            assert!(a.false_count() == f);
+            kani::cover!(with_nulls && z > 0 && t > 0 && f > 0);
+            kani::cover!(!with_nulls && t == N);
+            std::mem::forget(a);
+        }
+    };
+}
+// @unit name=bool_new_accepts_n3 props=C09,C01,C02 kind=bounded bound=rows=3_bit_offsets=(3,6) fns=BooleanArray::new,BooleanArray::value,BooleanArray::true_count,BooleanArray::false_count
+bool_new_accepts!(bool_new_accepts_n3, 3);
+// @unit name=bool_new_accepts_n8 props=C09,C01,C02 kind=bounded bound=rows=8_bit_offsets=(3,6) fns=BooleanArray::new,BooleanArray::value,BooleanArray::true_count,BooleanArray::false_count tier=thorough note=not_confirmed_at_checkpoint
+bool_new_accepts!(bool_new_accepts_n8, 8);
+
+// Contract (C01, C02): slice(OFF, LEN) of a 6-row boolean array (values and validity symbolic at bit
+// offsets 3 and 6; validity optional) denotes exactly rows [OFF, OFF+LEN) of the model; null_count and
+// true_count are recomputed exactly for the window; the parent is unchanged.
+macro_rules! bool_slice {
+    ($name:ident, $off:expr, $len:expr) => {
+        #[kani::proof]
+        #[kani::unwind(12)]
+        #[kani::stub(alloc::fmt::format, stub_format)]
+        fn $name() {
+            const N: usize = 6;
+            const OFF: usize = $off;
+            const LEN: usize = $len;
+            let vb: [u8; 2] = kani::any();
+            let bm: [u8; 2] = kani::any();
+            let (voff, boff): (usize, usize) = (3, 6);
+            let with_nulls: bool = kani::any();
+            let values = BooleanBuffer::new(Buffer::from_slice_ref(&vb), voff, N);
+            let nulls = if with_nulls {
+                Some(NullBuffer::new(BooleanBuffer::new(Buffer::from_slice_ref(&bm), boff, N)))
+            } else {
+                None
+            };
+            let a = BooleanArray::new(values, nulls);
+            let s = a.slice(OFF, LEN);
+            assert!(s.len() == LEN);
+            assert!(s.nulls().is_some() == with_nulls);
+            assert!(s.null_count() == if with_nulls { zeros(&bm, boff + OFF, LEN) } else { 0 });
+            let mut t = 0;
+            let mut i = 0;
+            while i < LEN {
+                let valid = !with_nulls || bit(&bm, boff + OFF + i);
+                let v = bit(&vb, voff + OFF + i);
+                assert!(s.value(i) == v);
+                assert!(s.is_null(i) == !valid);
+                if valid && v { t += 1 }
+                i += 1;
+            }
+            assert!(s.true_count() == t);
+            assert!(a.len() == N);
+            let j: usize = kani::any();
+            if j < N {
+                assert!(a.value(j) == bit(&vb, voff + j));
+                assert!(a.is_null(j) == (with_nulls && !bit(&bm, boff + j)));
+            }
+            kani::cover!(with_nulls && s.null_count() == LEN);
+            kani::cover!(with_nulls && a.null_count() > s.null_count());
+            kani::cover!(!with_nulls);
+            std::mem::forget(s);
+            std::mem::forget(a);
+        }
+    };
+}
+// @unit name=bool_slice_1_4 props=C01,C02 kind=bounded bound=rows=6_window=(1,4)_bit_offsets=(3,6) fns=BooleanArray::slice,BooleanArray::value,BooleanArray::true_count
+bool_slice!(bool_slice_1_4, 1, 4);
+// @unit name=bool_slice_3_3 props=C01,C02 kind=bounded bound=rows=6_window=(3,3)_bit_offsets=(3,6) fns=BooleanArray::slice,BooleanArray::value,BooleanArray::true_count tier=thorough note=not_confirmed_at_checkpoint
+bool_slice!(bool_slice_3_3, 3, 3);
+// @unit name=bool_slice_5_0 props=C01,C02 kind=bounded bound=rows=6_window=(5,0)_bit_offsets=(3,6) fns=BooleanArray::slice,BooleanArray::value,BooleanArray::true_count tier=thorough note=not_confirmed_at_checkpoint
+bool_slice!(bool_slice_5_0, 5, 0);
